@@ -220,7 +220,9 @@ type Gen struct {
 	Namespaces []string // namespaces hosted by the target server
 	Tables     []string
 	KeysPerTab int
-	forceReps  int // >0: every ( ... )+ group is repeated exactly that often
+	forceReps  int      // >0: every ( ... )+ group is repeated exactly that often
+	forceOpt   int      // 1: every ( ... )? group present, -1: absent, 0: random
+	Dict       []string // dictionary for the "dict" mutation kind
 	AvoidKinds map[string]bool
 	// BigBudget bounds how many arguments above 16 KiB this generator still
 	// produces (they dominate the WAL / engine / log volume); afterwards the
@@ -342,6 +344,9 @@ func (g *Gen) expand(t string) ([]string, []slot) {
 				reps := 1
 				if toks[j] == ")?" {
 					reps = g.R.Intn(2)
+					if g.forceOpt != 0 {
+						reps = (g.forceOpt + 1) / 2
+					}
 				} else if toks[j] == ")+" {
 					reps = 1 + g.R.Intn(3)
 					if g.forceReps > 0 {
@@ -406,7 +411,7 @@ var sepKeys = []string{":", "::", ":::", "ns:", "ns::", ":t:k", "::k", "fz:", "f
 // "tailbad": a multi-element write whose LAST element is invalid while the
 // earlier ones are fine (the shape that exposes partial writes: the earlier
 // elements are already in the write batch when the command fails).
-var mutationKinds = []string{"tailbad", "bintable", "drop", "dropall", "dup", "swap", "shuffle", "empty", "nul", "ff", "crlf", "big64k", "big70k", "longkey", "longfield",
+var mutationKinds = []string{"tailbad", "bintable", "dict", "drop", "dropall", "dup", "swap", "shuffle", "empty", "nul", "ff", "crlf", "big64k", "big70k", "longkey", "longfield",
 	"nons", "notable", "seps", "num", "numslot", "bitoff", "count", "opt", "case", "stale", "extra", "manyargs", "wrongns", "combo"}
 
 func isNumericSlot(k string) bool {
@@ -521,6 +526,19 @@ func (g *Gen) Mutate(c GenCmd, kinds []slot, kind string) GenCmd {
 		}
 		if !done {
 			set(len(args)-1, fill(10241, 'f'))
+		}
+	case "dict":
+		// a magic string of the tree's own sources, mostly where the server parses at apply time
+		if len(g.Dict) > 0 {
+			vs := dictVariants(g.Dict[r.Intn(len(g.Dict))])
+			v := vs[r.Intn(len(vs))]
+			i := pos()
+			if r.Intn(10) < 6 {
+				i = slotPos(func(k string) bool {
+					return isNumericSlot(k) || k == "PATH" || k == "JSON" || k == "OLDV" || k == "TYPE" || k == "UNIT" || k == "lit"
+				})
+			}
+			set(i, []byte(v))
 		}
 	case "bintable":
 		// the table part of the key becomes bytes that are not valid UTF-8 (ns and key stay)
@@ -682,7 +700,7 @@ func (g *Gen) Mutate(c GenCmd, kinds []slot, kind string) GenCmd {
 
 // value-level kinds are drawn more often than the key-destroying ones
 var weightedKinds = func() []string {
-	heavy := map[string]int{"tailbad": 4, "num": 3, "numslot": 4, "bitoff": 2, "count": 3, "big70k": 2, "longfield": 2, "empty": 2, "nul": 2, "ff": 2, "dup": 2, "opt": 2, "extra": 2, "swap": 2, "combo": 2}
+	heavy := map[string]int{"tailbad": 4, "dict": 3, "num": 3, "numslot": 4, "bitoff": 2, "count": 3, "big70k": 2, "longfield": 2, "empty": 2, "nul": 2, "ff": 2, "dup": 2, "opt": 2, "extra": 2, "swap": 2, "combo": 2}
 	var out []string
 	for _, k := range mutationKinds {
 		n := heavy[k]
@@ -743,4 +761,72 @@ func isWriteKind(kinds []string) bool {
 		}
 	}
 	return false
+}
+
+// PrePhase is the systematic part sent before the random phase:
+// (1) argument counts, exhaustively: for every name, for a minimal and a
+// maximal valid instance of its template, every proper prefix (1..n-1
+// arguments) and the instance plus one extra argument, all other values valid;
+// (2) the strict dictionary (literals of the tree's text classifiers) in every
+// argument position of every client-reachable write command.
+func (g *Gen) PrePhase(names []RegisteredCmd, strict []string, avoid func(string) bool) []GenCmd {
+	var out []GenCmd
+	seen := map[string]bool{}
+	add := func(c GenCmd) {
+		if g.AvoidKinds[c.Kind] {
+			return // this systematic kind killed an earlier child of the run
+		}
+		k := c.Name
+		for _, a := range c.Args {
+			k += "\x00" + string(a)
+		}
+		if !seen[k] {
+			seen[k] = true
+			out = append(out, c)
+		}
+	}
+	cp := func(a [][]byte) [][]byte { return append([][]byte(nil), a...) }
+	for _, rc := range names {
+		if _, skip := skippedCommands[rc.Name]; skip || avoid(rc.Name) {
+			continue
+		}
+		if _, ok := templates[rc.Name]; !ok {
+			continue
+		}
+		for _, mode := range []struct{ opt, reps int }{{-1, 1}, {1, 2}} {
+			g.forceOpt, g.forceReps = mode.opt, mode.reps
+			v, kinds, _ := g.Valid(rc.Name)
+			g.forceOpt, g.forceReps = 0, 0
+			for n := 1; n < len(v.Args); n++ {
+				add(GenCmd{Name: rc.Name, Kind: "argc-prefix", Args: cp(v.Args[:n])})
+			}
+			extra := []byte("x")
+			if len(v.Args) > 1 {
+				extra = v.Args[len(v.Args)-1]
+			}
+			add(GenCmd{Name: rc.Name, Kind: "argc-extra", Args: append(cp(v.Args), extra)})
+			if !isWriteKind(rc.Kinds) {
+				continue
+			}
+			for i := 1; i < len(v.Args) && i < len(kinds); i++ {
+				k := kinds[i].kind
+				parsed := isNumericSlot(k) || k == "PATH" || k == "JSON" || k == "OLDV"
+				if strings.HasPrefix(k, "K:") && i == 1 {
+					continue // the routing key: a dictionary string there is just an invalid key
+				}
+				for _, lit := range strict {
+					vs := dictVariants(lit)
+					if !parsed {
+						vs = vs[:1]
+					}
+					for _, dv := range vs {
+						a := cp(v.Args)
+						a[i] = []byte(dv)
+						add(GenCmd{Name: rc.Name, Kind: "dict-sys", Args: a})
+					}
+				}
+			}
+		}
+	}
+	return out
 }
